@@ -29,6 +29,7 @@ Over(K) ==
   \cup {<<"map", <<<<a, b>>>>>> : a \in K, b \in K} \cup {<<"stmt", <<a, b>>>> : a \in K, b \in K} \cup {<<"stmt", <<a, <<"var">>, b>>>> : a \in K, b \in K}
   \cup {<<"gcall", <<a, b>>>> : a \in K, b \in K} \cup {<<"gcall", <<>>>>} \cup {<<"setbad", a>> : a \in K} \cup {<<"unk", a>> : a \in K} \cup {<<"unkcall", <<a>>>> : a \in K}
   \cup {<<"setfn", a>> : a \in K} \cup {<<"varcall", <<a>>>> : a \in K}
+  \cup {<<"inlist", a, b, c>> : a \in K, b \in K, c \in {C}}
   \cup {<<"uun", a>> : a \in K} \cup {<<"upost", a>> : a \in K} \cup {<<"ucalc", a, b>> : a \in K, b \in K} \cup {<<"uset", a>> : a \in K}
 Shapes == IF Depth = 1 THEN {C, <<"var">>} \cup Over(Kids1) \cup {<<"map", <<<<C, C>>, <<C, C>>>>>>, <<"stmt", <<>>>>, <<"stmt", <<C, C, C>>>>}
           ELSE Over(Kids2) \cup {<<"stmt", <<a, b, c>>>> : a \in {C, <<"set", C>>}, b \in Kids2, c \in {C, <<"var">>, <<"tern", C, C, C>>}}
@@ -39,7 +40,7 @@ Size(t) ==
     [] t[1] = "var" -> 0
     [] t[1] \in {"un", "post", "set", "cset", "setbad", "unk", "setfn", "uun", "upost", "uset"} -> Size(t[2])
     [] t[1] \in {"calc", "ucalc"} -> Size(t[2]) + Size(t[3])
-    [] t[1] = "tern" -> Size(t[2]) + Size(t[3]) + Size(t[4])
+    [] t[1] \in {"tern", "inlist"} -> Size(t[2]) + Size(t[3]) + Size(t[4])
     [] t[1] \in {"list", "stmt", "gcall", "unkcall", "varcall"} -> SizeSeq(t[2])
     [] t[1] = "map" -> SizeSeq([i \in 1..2 * Len(t[2]) |-> t[2][(i + 1) \div 2][IF i % 2 = 1 THEN 1 ELSE 2]])
 \* concrete program: leaves numbered base+1.. in source order; mode decides how leaf i is reached
@@ -62,6 +63,7 @@ Build(t, base, mode) ==
     [] t[1] = "ucalc" -> <<"bin", "uin", Build(t[2], base, mode), Build(t[3], base + Size(t[2]), mode)>>
     [] t[1] = "uset" -> <<"bin", "uasg", <<"ref", "x">>, Build(t[2], base, mode)>>
     [] t[1] = "tern" -> <<"tern", Build(t[2], base, mode), Build(t[3], base + Size(t[2]), mode), Build(t[4], base + Size(t[2]) + Size(t[3]), mode)>>
+    [] t[1] = "inlist" -> <<"bin", "in", Build(t[2], base, mode), <<"list", <<Build(t[3], base + Size(t[2]), mode), Build(t[4], base + Size(t[2]) + Size(t[3]), mode)>>>>>>
     [] t[1] = "list" -> <<"list", BuildSeq(t[2], base, mode)>>
     [] t[1] = "stmt" -> <<"stmt", BuildSeq(t[2], base, mode)>>
     [] t[1] = "gcall" -> <<"call", "G", BuildSeq(t[2], base, mode)>>
